@@ -80,13 +80,15 @@ def run(tier, seed):
     total = Stats()
     counts = {}
     if tier == 'thorough':
-        plans = [(VALID + INVALID, 4), (VALID[:12] + QUICK_INVALID[:3], 5)]
+        plans = [(VALID + INVALID, 3, ROOTS),
+                 (VALID[:13] + QUICK_INVALID[:4] + ['?query'], 4,
+                  [ROOTS[0], ROOTS[2], ROOTS[4]])]
     else:
         k = seed % 3
         inv = QUICK_INVALID[k:] + QUICK_INVALID[:k]
-        plans = [(VALID + INVALID, 2), (VALID + inv[:4], 3)]
-    for names, depth in plans:
-        for root in ROOTS:
+        plans = [(VALID + INVALID, 2, ROOTS), (VALID + inv[:4], 3, ROOTS)]
+    for names, depth, roots in plans:
+        for root in roots:
             n, nfp = explore(names, depth, total, root=root)
             counts[f"root {'+'.join(root) or 'empty'} / {len(names)} events "
                    f"/ depth {depth}"] = {'nodes': n,
